@@ -81,6 +81,14 @@ impl<T> SessionTask<T> where T: RequestHandler {
 //@|            && final(io).sent.subrange(0, old(io).sent.len() as int) == old(io).sent
 //@|            && exc_frame(old(self).tcp(), final(io).sent.last(), header, func, ex)),
 
+// [C15] waiting between port re-opens still honours shutdown: Err(Shutdown) when the command channel closes or Shutdown arrives
+//@fn rodbus/src/server/task.rs | SessionTask<T>::process_commands | tags=C15 | attr=#[verifier::exec_allows_no_decreases_clause]
+//@|    ensures final(self).handlers == old(self).handlers, final(self).auth == old(self).auth, final(self).writer == old(self).writer, final(self).reader == old(self).reader,
+//@loop 0|            invariant self.handlers == old(self).handlers, self.auth == old(self).auth, self.writer == old(self).writer, self.reader == old(self).reader,
+
+//@fn rodbus/src/server/task.rs | SessionTask<T>::sleep_for | tags=C14,C15 | ext_body
+//@|    ensures final(self).handlers == old(self).handlers, final(self).auth == old(self).auth, final(self).writer == old(self).writer, final(self).reader == old(self).reader,
+
 // [C20] a decode-level change touches nothing but the level; [C15] Shutdown ends the session
 //@fn rodbus/src/server/task.rs | SessionTask<T>::apply_command | tags=C15,C20
 //@|    ensures final(self).handlers == old(self).handlers, final(self).auth == old(self).auth, final(self).writer == old(self).writer,
@@ -219,6 +227,6 @@ impl<T> SessionTask<T> where T: RequestHandler {
 
 //@fn rodbus/src/server/task.rs | SessionTask<T>::run | tags=C01,C05,C15 | attr=#[verifier::exec_allows_no_decreases_clause]
 //@|    requires old(self).wf(),
-//@|    ensures final(self).wf(),
-//@loop 0|            invariant self.wf(),
+//@|    ensures final(self).wf(), final(self).tcp() == old(self).tcp(),
+//@loop 0|            invariant self.wf(), self.tcp() == old(self).tcp(),
 }
